@@ -148,6 +148,9 @@ PostHolds(n, K, s, a, out, m, t, taint) ==
     [] n = "TwinUnchanged" ->           \* the readings of ANOTHER object of the same kind (same path on an identical second slide; given the same value
                                         \* after the first accepted assignment) do not change when this object is assigned to, and vice versa:
          m.tw # "changed"               \* "the object's other, independent properties" a fortiori covers other objects
+    \* (every other history re-opens the saved file RESPELLED as another producer may spell it, value for value the same by the schema:
+    \* hexBinary colours in lower case, xsd:boolean "1" / "0" as "true" / "false" - C11: "every schema-valid lexical form met in a
+    \* document can be read", judged at the READER: the readings are those of the file as the library spelled it)
     [] n = "ReopenSame" ->              \* the same value is read after saving and re-opening
          a.op = "SaveReopen" => ((taint = {} => out = "ok") /\ (out = "ok" => \A q \in (DOMAIN K.props) \ taint : t.r[q] = s.r[q]))
 PostFailing(K, s, a, out, m, t, taint) ==
